@@ -91,7 +91,9 @@ func (o *MergeAndSortRulesOptimizer) Optimize(rules []*config_parser.RoutingRule
 		if len(mergingRule.AndFunctions) == 1 &&
 			len(rules[i].AndFunctions) == 1 &&
 			mergingRule.AndFunctions[0].Name == rules[i].AndFunctions[0].Name &&
-			mergingRule.AndFunctions[0].Not == rules[i].AndFunctions[0].Not &&
+			// Negated conditions must not be merged: "!f(a) -> o; !f(b) -> o" matches
+			// when a or b is absent, whereas "!f(a, b) -> o" needs both to be absent.
+			!mergingRule.AndFunctions[0].Not && !rules[i].AndFunctions[0].Not &&
 			rules[i].Outbound.String(true, false, true) == mergingRule.Outbound.String(true, false, true) {
 			mergingRule.AndFunctions[0].Params = append(mergingRule.AndFunctions[0].Params, rules[i].AndFunctions[0].Params...)
 		} else {
